@@ -77,13 +77,24 @@ func configOf(cb cbreaker.CircuitBreaker) *cbreaker.CircuitBreakerConfig {
 	return (*cbreaker.CircuitBreakerConfig)(unsafe.Pointer(f.Pointer()))
 }
 
-type nopListener struct{ id int }
+// a listener; `failing` ones return an error from every callback (also from the notification the constructor sends): what a listener
+// returns is logged, it must not influence whether a configuration is accepted
+type nopListener struct {
+	id      int
+	failing bool
+}
 
-func (*nopListener) OnStateChanged(cbreaker.CircuitBreaker, cbreaker.CircuitState) error { return nil }
-func (*nopListener) OnEventCountUpdated(cbreaker.CircuitBreaker, *cbreaker.EventCount) error {
+func (l *nopListener) err() error {
+	if l.failing {
+		return fmt.Errorf("listener %d is not ready", l.id)
+	}
 	return nil
 }
-func (*nopListener) OnRequestRejected(cbreaker.CircuitBreaker) error { return nil }
+func (l *nopListener) OnStateChanged(cbreaker.CircuitBreaker, cbreaker.CircuitState) error { return l.err() }
+func (l *nopListener) OnEventCountUpdated(cbreaker.CircuitBreaker, *cbreaker.EventCount) error {
+	return l.err()
+}
+func (l *nopListener) OnRequestRejected(cbreaker.CircuitBreaker) error { return l.err() }
 func (*nopListener) Stop()                                           {}
 
 // gettersEcho: the configuration a breaker was built from must be what its getters say (C20: "accepted" means accepted as given)
@@ -222,7 +233,7 @@ func runCtor(count int, _ []string) {
 				if rng.Intn(3) == 0 {
 					bld.AddListener(nil)
 				}
-				l := &nopListener{id: k}
+				l := &nopListener{id: k, failing: rng.Intn(3) == 0}
 				ls = append(ls, l)
 				bld.AddListener(l)
 			}
